@@ -81,6 +81,19 @@ func (s Ssid) GetHashCode() uint32 {
 	return h
 }
 
+// equals checks whether two SSIDs are the same, element by element.
+func (s Ssid) equals(other Ssid) bool {
+	if len(s) != len(other) {
+		return false
+	}
+	for i := range s {
+		if s[i] != other[i] {
+			return false
+		}
+	}
+	return true
+}
+
 // Encode encodes the SSID to a binary format
 func (s Ssid) Encode() string {
 	bin := make([]byte, 4)
@@ -230,6 +243,7 @@ type Counter struct {
 	Ssid    Ssid
 	Channel []byte
 	Counter int
+	next    *Counter // The next counter whose SSID has the same hash code.
 }
 
 // NewCounters creates a new container.
@@ -268,14 +282,25 @@ func (s *Counters) Decrement(ssid Ssid) (last bool) {
 	defer s.Unlock()
 
 	key := ssid.GetHashCode()
-	if m, exists := s.m[key]; exists {
-		m.Counter--
+	var prev *Counter
+	for m := s.m[key]; m != nil; prev, m = m, m.next {
+		if !m.Ssid.equals(ssid) {
+			continue
+		}
 
 		// Remove if there's no subscribers left
-		if m.Counter <= 0 {
-			delete(s.m, ssid.GetHashCode())
+		if m.Counter--; m.Counter <= 0 {
+			switch {
+			case prev != nil:
+				prev.next = m.next
+			case m.next != nil:
+				s.m[key] = m.next
+			default:
+				delete(s.m, key)
+			}
 			return true
 		}
+		return false
 	}
 
 	return false
@@ -287,8 +312,10 @@ func (s *Counters) All() []Counter {
 	defer s.Unlock()
 
 	clone := make([]Counter, 0, len(s.m))
-	for _, m := range s.m {
-		clone = append(clone, *m)
+	for _, head := range s.m {
+		for m := head; m != nil; m = m.next {
+			clone = append(clone, Counter{Ssid: m.Ssid, Channel: m.Channel, Counter: m.Counter})
+		}
 	}
 
 	return clone
@@ -297,8 +324,11 @@ func (s *Counters) All() []Counter {
 // getOrCreate retrieves a single subscription meter or creates a new one.
 func (s *Counters) getOrCreate(ssid Ssid, channel []byte) (meter *Counter) {
 	key := ssid.GetHashCode()
-	if m, exists := s.m[key]; exists {
-		return m
+	var last *Counter
+	for m := s.m[key]; m != nil; last, m = m, m.next {
+		if m.Ssid.equals(ssid) {
+			return m
+		}
 	}
 
 	meter = &Counter{
@@ -306,6 +336,12 @@ func (s *Counters) getOrCreate(ssid Ssid, channel []byte) (meter *Counter) {
 		Channel: channel,
 		Counter: 0,
 	}
-	s.m[key] = meter
+
+	// Several SSIDs can share a hash code (e.g. a/b and b/a), chain them
+	if last != nil {
+		last.next = meter
+	} else {
+		s.m[key] = meter
+	}
 	return
 }
